@@ -2,7 +2,7 @@
 
 Designer-chosen names (signals, instances) are stable identifiers.  Names the elaborator
 invents (array elements, pair members, flattened bundle leaves, implicit nets) are never
-assumed: candidates are found by stem (`stem` + optional trailing underscores), ambiguity
+assumed: candidates are found by stem (`stem` + optional underscore-led suffix), ambiguity
 is resolved by trying the alternatives, and implicit nets are not anchors at all.
 """
 import itertools
@@ -51,10 +51,16 @@ def expected_param(kind, name, val):
     return f"prefixed:{val}:{int(vlsir.SIPrefix.UNIT)}"
 
 
+# How a clash is resolved is the elaborator's business (the pinned tree appends underscores; a
+# counter or any other `_suffix` is as good): an invented name is its stem, optionally followed by
+# an underscore-led suffix, and never a designer's name.
+SUFFIX = "(_.*)?"
+
+
 def seg_regex(seg):
     if seg[0] == "a":
-        return re.compile("^" + re.escape(seg[1]) + "_" + str(seg[2]) + "_*$")
-    return re.compile("^" + re.escape(seg[1]) + "_" + re.escape(seg[2]) + "_*$")
+        return re.compile("^" + re.escape(seg[1]) + "_" + str(seg[2]) + SUFFIX + "$")
+    return re.compile("^" + re.escape(seg[1]) + "_" + re.escape(seg[2]) + SUFFIX + "$")
 
 
 class Mismatch(Exception):
@@ -112,6 +118,29 @@ def _alternatives(model, pkgflat):
     # Ambiguity is rare and local; handle it by enumerating per-parent alternatives lazily:
     # first resolve everything that is unambiguous given exact/stem matching *per module
     # definition name pattern*, independent of the parent's own mapping.
+    # name-free shape of a sub-tree: leaf kind, or the sorted shapes of the children
+    pleaf = {l["path"]: l["kind"] for l in pkgflat["leaves"]}
+    shape_cache = {}
+
+    def mshape(mpath):
+        key = ("m", mpath)
+        if key not in shape_cache:
+            node = mnodes.get(mpath)
+            if isinstance(node, str):
+                shape_cache[key] = PRIM_EXPORT.get(node[5:]) if node.startswith("prim:") else node[4:]
+            else:
+                shape_cache[key] = tuple(sorted((mshape(mpath + (c,)) for c in mchildren.get(mpath, [])), key=str))
+        return shape_cache[key]
+
+    def pshape(ppath):
+        key = ("p", ppath)
+        if key not in shape_cache:
+            if ppath in pleaf:
+                shape_cache[key] = pleaf[ppath]
+            else:
+                shape_cache[key] = tuple(sorted((pshape(ppath + (c,)) for c in pchildren.get(ppath, [])), key=str))
+        return shape_cache[key]
+
     def resolve(mpath, ppath):
         segs = mchildren.get(mpath, [])
         pnames = list(pchildren.get(ppath, []))
@@ -133,6 +162,9 @@ def _alternatives(model, pkgflat):
             cands = [c for c in cands if c not in designer]
             if not cands:
                 cands = [n for n in pnames if n not in used and n not in designer]
+            # an element can only be a package instance of the same shape (same devices below it)
+            shaped = [c for c in cands if pshape(ppath + (c,)) == mshape(mpath + (seg,))]
+            cands = shaped or cands
             if not cands:
                 raise Mismatch(f"no package instance for invented element {seg} under {mpath}")
             if len(cands) == 1:
@@ -174,7 +206,7 @@ def _alternatives(model, pkgflat):
             pwidth[(pp, name)] = max(pwidth.get((pp, name), 0), i + 1)
         for (mpath, bname, lp), w in sorted(bleaves.items(), key=str):
             ppath = _map_path(mpath, fixed)
-            rx = re.compile("^" + re.escape(bname) + "_" + re.escape("_".join(lp)) + "_*$")
+            rx = re.compile("^" + re.escape(bname) + "_" + re.escape("_".join(lp)) + SUFFIX + "$")
             designer = msigs.get(mpath, set())
             cands = sorted(n for n in psignames.get(ppath, ()) if rx.match(n) and n not in designer and pwidth[(ppath, n)] == w)
             if not cands:
